@@ -252,6 +252,24 @@ CHECKS["C16"] = {
                     "a snapshot taken in the same loop turn as the last delivery (not drained) is only counted"],
 }
 
+CHECKS["C14"] = {
+    "specs": [("state", "fresh", 2400, 90000)],
+    "budget": (150, 1800),
+    "rule": "one run = 20-140 steps against a live gateway with a configured system (2-6 of zones 00-0B, DHW in 60 %): stateful frames "
+            "generated by the engine in the shapes seen in the corpus (controller arrays and per-zone replies of 30C9/2309/000A, 2349, "
+            "12B0, 0004, 2E04, 1260, 10A0, 1F41; TRV/thermostat/relay/DHW-sensor 30C9, 2309, 3150, 12B0, 0008, 1260), every value unique, "
+            "each transmission delivered, lost or duplicated; interleaved noise (RQ and W echoes for the same contexts, a second "
+            "controller's arrays for the same zone indexes, other devices); wall-clock steps of 5 s .. 2 days placed around the lifetimes; "
+            "'thresholds' steps that deliver one fresh message of one of 29 kinds and evaluate Message._expired at ages 0, L/2, L-2ms, "
+            "L+2ms, 1.5L, 2L+2.99, 2L+3.01, 2L+5.01, 3L+60, 5L+600 (L from an independent copy of the documented lifetimes, 1F09 from its "
+            "own countdown 0..6553.5 s). Oracle: value == newest delivered while age < L; None (on the first read) once age >= 2L+5 s; "
+            "_expired False before L, True from 2L+5 s, never True->False. distinct = distinct step-kind sequences; non-trivial = faults on",
+    "real": REAL_STATE, "stub": STUB_RF + ["frame generators in simrf.engines.state_fresh (written from the parsers' frame examples)"],
+    "assumptions": ["between L and 2L + 5 s either answer is accepted (the statement leaves it open); grace is taken as 5 s (the code uses 3 s)",
+                    "when the newest message has expired, the value of an older, still-live message for the same attribute is accepted too",
+                    "values are compared on the keys the frame layout documents (temperature, setpoint, mode, max_temp, window_open, ...)"],
+}
+
 
 def specs_for(prop: str, tier: str) -> list[tuple[str, str, int]]:
     out = []
@@ -340,11 +358,16 @@ MANIFEST_TEXT["C16"] = {
             "from it (optionally after downtime) and its snapshot, a second restore and a restore into the original are compared.",
     "design_ref": "DESIGN.md 7/C16", "technique": _TECH,
     "note": "Restart uses the Home Assistant path: Gateway(port, **schema).start(cached_packets=...)."}
+MANIFEST_TEXT["C14"] = {
+    "text": "Seeded interleavings of generated stateful traffic (loss, duplication, foreign systems, RQ/W echoes) with wall-clock steps around "
+            "every lifetime; a reference model updated at delivery is the oracle for values, an independent lifetime table for _expired.",
+    "design_ref": "DESIGN.md 7/C14", "technique": _TECH,
+    "note": "The model never calls the library's parsers: every value is chosen by the plan and unique per transmission."}
 NOT_APPLICABLE = {
     "C03": "pure function of constructor arguments (decode(build(args)) = args): no schedule, clock, fault, history or second "
            "party to simulate; exhaustive/argument-space enumeration is outside this technique (DESIGN.md 8)",
     "C04": "pure scalar codec inverses over finite enumerable domains: no nondeterminism for a simulator to control "
            "(DESIGN.md 8)",
 }
-for _p in ("C14", "C20"):
+for _p in ("C20",):
     NOT_APPLICABLE.setdefault(_p, "applicable, but its engine is not built yet in this round (see DESIGN.md 12 build order)")
